@@ -11,6 +11,7 @@ CONSTANTS
   FixInvalidCorrected = FALSE
   FixValidToInvalid = FALSE
   AvoidWindows = FALSE
+  ProcRewritesName = FALSE
 INVARIANTS TypeOK NoDupStore ViewsReadable
 POSTCONDITION TraceAccepted
 CHECK_DEADLOCK FALSE
